@@ -70,23 +70,30 @@ def comembership(labels):
 
 # ---------------------------------------------------------------- shortest paths
 
-def floyd(L):
-    """min-plus closure of the length matrix L (0 = no edge). Diagonal 0."""
+def _edges(L, absent_is_zero=True):
+    """edge-length matrix with inf where there is no edge and on the diagonal"""
     L = np.asarray(L, dtype=float)
-    n = len(L)
-    D = np.where(L != 0, L, INF)
+    E = np.where(L != 0, L, INF) if absent_is_zero else L.copy()
+    np.fill_diagonal(E, INF)
+    return E
+
+
+def floyd(L, absent_is_zero=True):
+    """min-plus closure of the length matrix L (0 = no edge, or inf = no edge
+    when absent_is_zero is False, which admits zero-length edges). Diagonal 0."""
+    E = _edges(L, absent_is_zero)
+    n = len(E)
+    D = E.copy()
     np.fill_diagonal(D, 0)
     for k in range(n):
         D = np.minimum(D, D[:, [k]] + D[[k], :])
     return D
 
 
-def exact_hops(L):
+def exact_hops(L, absent_is_zero=True):
     """best[h][i,j] = minimum length over walks from i to j with exactly h edges (h=0..n-1)"""
-    L = np.asarray(L, dtype=float)
-    n = len(L)
-    E = np.where(L != 0, L, INF)
-    np.fill_diagonal(E, INF)
+    E = _edges(L, absent_is_zero)
+    n = len(E)
     best = [np.where(np.eye(n, dtype=bool), 0.0, INF)]
     for h in range(1, n):
         prev = best[-1]
@@ -95,11 +102,11 @@ def exact_hops(L):
     return best
 
 
-def hop_sets(L, D=None, rtol=0.0):
+def hop_sets(L, D=None, rtol=0.0, absent_is_zero=True):
     """H[i][j] = set of hop counts h for which a minimum-length path with exactly h edges exists"""
     if D is None:
-        D = floyd(L)
-    best = exact_hops(L)
+        D = floyd(L, absent_is_zero)
+    best = exact_hops(L, absent_is_zero)
     n = len(D)
     H = [[set() for _ in range(n)] for _ in range(n)]
     for h, B in enumerate(best):
@@ -110,9 +117,16 @@ def hop_sets(L, D=None, rtol=0.0):
     return H
 
 
-def sp_counts(L):
-    """sigma[s,t] = number of shortest s->t paths (exact equality of lengths;
-    use exactly representable lengths). Returns D, sigma."""
+def _eq(a, b, rtol):
+    if rtol == 0.0:
+        return a == b
+    return abs(a - b) <= rtol * max(1.0, abs(b))
+
+
+def sp_counts(L, rtol=0.0):
+    """sigma[s,t] = number of shortest s->t paths.  With rtol=0 lengths are compared exactly (use exactly
+    representable lengths); with rtol>0 two lengths within that relative distance count as equal (use only on
+    inputs without near-ties).  Returns D, sigma."""
     D = floyd(L)
     L = np.asarray(L, dtype=float)
     n = len(L)
@@ -125,18 +139,18 @@ def sp_counts(L):
                 continue
             tot = 0.0
             for u in range(n):
-                if u != v and L[u, v] != 0 and np.isfinite(D[s, u]) and D[s, u] + L[u, v] == D[s, v]:
+                if u != v and L[u, v] != 0 and np.isfinite(D[s, u]) and _eq(D[s, u] + L[u, v], D[s, v], rtol):
                     tot += sigma[s, u]
             sigma[s, v] = tot
     return D, sigma
 
 
-def betweenness(L):
+def betweenness(L, rtol=0.0):
     """Node and edge betweenness by the definition:
     BC[v]   = sum_{s!=v!=t, s!=t, reachable} sigma(s,t|v)/sigma(s,t)
     EBC[u,v]= sum_{s!=t reachable} sigma(s,t|u->v)/sigma(s,t)
     with sigma(s,t|v) = sigma(s,v) sigma(v,t) iff D[s,v]+D[v,t]==D[s,t]."""
-    D, sg = sp_counts(L)
+    D, sg = sp_counts(L, rtol)
     L = np.asarray(L, dtype=float)
     n = len(L)
     BC = np.zeros(n)
@@ -146,13 +160,13 @@ def betweenness(L):
             if s == t or not np.isfinite(D[s, t]):
                 continue
             for v in range(n):
-                if v != s and v != t and D[s, v] + D[v, t] == D[s, t]:
+                if v != s and v != t and np.isfinite(D[s, v]) and np.isfinite(D[v, t]) and _eq(D[s, v] + D[v, t], D[s, t], rtol):
                     BC[v] += sg[s, v] * sg[v, t] / sg[s, t]
             for u in range(n):
                 if not np.isfinite(D[s, u]):
                     continue
                 for v in range(n):
-                    if u != v and L[u, v] != 0 and np.isfinite(D[v, t]) and D[s, u] + L[u, v] + D[v, t] == D[s, t]:
+                    if u != v and L[u, v] != 0 and np.isfinite(D[v, t]) and _eq(D[s, u] + L[u, v] + D[v, t], D[s, t], rtol):
                         EBC[u, v] += sg[s, u] * sg[v, t] / sg[s, t]
     return BC, EBC, D, sg
 
